@@ -559,7 +559,7 @@ func init() {
 			if tier == "thorough" {
 				bits = 26
 			}
-			return []*core.Space{c17PureSpace(bits), c17ServerSpace(tier), c17RuleSpace()}
+			return []*core.Space{c17PureSpace(bits), c17ServerSpace(tier), c17RuleSpace(), c17JSONSpace()}
 		},
 		Post: func(tier string, total *core.Result) {
 			// vacuity guard, evaluated in the parent
